@@ -87,8 +87,10 @@ class Interp(LibMixin, CallMixin, StmtMixin, ExprMixin, InterpBase):
             base = VRef(r)
             ctx.assume(z3.Select(st.typeof, r) == t.id("dict"))
             ctx.assume(z3.Select(st.dlen, r) >= 0)
-            if p.elem != "agent":
+            if p.elem is None:
                 st.ghost.setdefault("host_data_dicts", []).append(base)
+            elif hasattr(p.elem, "kind"):
+                st.ghost.setdefault("dict_value_sorts", {})[str(base)] = p.elem
         elif p.kind == "frame":
             r = self.fresh_ref(name)
             base = VRef(r)
@@ -265,7 +267,9 @@ class Interp(LibMixin, CallMixin, StmtMixin, ExprMixin, InterpBase):
                 res = VNone if self.ctx.branch(isnone, "fresh result is None") else base
                 S_.result = res
             if c.logged:
-                self.st.log.append(LogEntry(c.logged, [bound[n] for n in _param_order(fi)], {}, res, anchor))
+                le = LogEntry(c.logged, [bound[n] for n in _param_order(fi)], {}, res, anchor)
+                le.pre = old          # heap at the time of the call
+                self.st.log.append(le)
             return res
         sg = c.signals[k - 1]
         if c.logged:
@@ -329,6 +333,7 @@ def verify_contract(index, table, contracts, c, axioms, timeout_ms=10000, max_pa
         res.reason = "function %s not found in %s" % (c.qual, c.file)
         return res
     res.sha256 = fi.sha256()
+    z3.set_param("smt.relevancy", getattr(c, "relevancy", 2))     # per contract (2 = z3 default)
     ex = Explorer(axioms, timeout_ms=timeout_ms, max_paths=c.max_paths or max_paths)
     prop_of = {}
 
@@ -373,6 +378,11 @@ def verify_contract(index, table, contracts, c, axioms, timeout_ms=10000, max_pa
             try:
                 it.exec_block(fi.node.body)
                 exit_kind, value = "return", VNone
+            except Unsupported:
+                # a path refuted by the quantified lemmas is dead: whatever went wrong on it is irrelevant
+                if ctx.lemmas and ctx._prove_unsat(quick=True) == z3.unsat:
+                    raise PathAbort("dead path (refuted by lemmas)")
+                raise
             except ReturnEx as r:
                 exit_kind, value = "return", r.value
             except PyRaise as pr:
@@ -428,6 +438,7 @@ def verify_contract(index, table, contracts, c, axioms, timeout_ms=10000, max_pa
         res.status = "error"
         res.reason = "z3: %s" % z
     res.paths = ex.n_paths
+    res.by_backend = dict(ex.by_backend)
     res.notes = ex.notes
     res.solver_time = ex.solver_time
     for name, o in ex.obligations.items():
